@@ -94,7 +94,7 @@ def cli_case(case):
                     "utf-16": None, "latin-1": "# dépendances gérées à la main, à ne pas modifier sans prévenir l'équipe déjà citée\n".encode("latin-1")}[case["legacy"]]
             body = "requests==2.31.0\nflask>=2\nclick\njinja2\nwerkzeug\nitsdangerous\n"
             files["requirements.txt"] = (head + body.encode()) if head is not None else ("# deps\n" + body).encode("utf-16")
-        a, b = root / "a", root / "b"
+        a, b = root / "dry" / "proj", root / "real" / "proj"   # same directory name: order-imports classifies imports by the names of directories around the file
         e2e.write_project(a, files); e2e.write_project(b, files)
         snap = e2e.snapshot(a)
         opts = list(case.get("opts") or [])
